@@ -56,6 +56,7 @@ type harnessSpec struct {
 	BigWidth   int
 	Reach      []string
 	MaxSteps   int
+	Init       []string // extra packages whose init is executed (//verif:init)
 	Replace    map[string]string
 	Tags       string
 	Prog       *ssa.Program
@@ -411,6 +412,8 @@ func parseSpec(fn *ssa.Function, pkg *ssa.Package, rel string) (*harnessSpec, er
 			sp.Reach = append(sp.Reach, f[1:]...)
 		case "maxsteps":
 			sp.MaxSteps, _ = strconv.Atoi(f[1])
+		case "init":
+			sp.Init = append(sp.Init, f[1:]...)
 		default:
 			return nil, fmt.Errorf("unknown directive %q", f[0])
 		}
@@ -495,7 +498,14 @@ func runItem(prog *ssa.Program, it item) (res *itemResult) {
 	if it.H.MaxSteps > 0 {
 		ex.MaxSteps = it.H.MaxSteps
 	}
-	ex.InitPackage(it.H.Pkg, allowInit)
+	ex.InitPackage(it.H.Pkg, func(path string) bool {
+		for _, p := range it.H.Init {
+			if p == path {
+				return true
+			}
+		}
+		return allowInit(path)
+	})
 	if *flagVerbose {
 		for p, w := range ex.Suspects() {
 			if !strings.HasPrefix(w, "not initialised") {
